@@ -224,12 +224,20 @@ def splitInsertIndex (D : List Nat) (pos e x y : Nat) : Nat :=
 
 /-! ### `tensor_merge` -/
 
-/-- character code of `string.ascii_letters[i]`: lower case (97…) first, then upper case (65…) -/
+/-- character code of `string.ascii_letters[i]`: lower case (97…) first, then upper case (65…).
+(Only the third component of the sort tuples; never decisive, see `mergeLe`.) -/
 def letterCode (i : Nat) : Nat := if i < 26 then 97 + i else 39 + i
 
-/-- tuple comparison `(p, ch) <= (p', ch')` used by `sorted(zip(norm_pos, ins_part))` -/
-def mergeLe (a b : Nat × Nat) : Bool :=
-  decide (a.1 < b.1) || (a.1 == b.1 && decide (letterCode a.2 ≤ letterCode b.2))
+/-- tuple comparison `(p, j, ch) <= (p', j', ch')` used by
+`sorted(zip(norm_pos, range(ins_ndim), ins_part))`: by position, ties by the index `j` of the
+factor in `ins` (the letter would only be compared for equal `j`, which does not occur). -/
+def mergeLe (a b : Nat × (Nat × Nat)) : Bool :=
+  decide (a.1 < b.1) || (a.1 == b.1 &&
+    (decide (a.2.1 < b.2.1) || (a.2.1 == b.2.1 && decide (letterCode a.2.2 ≤ letterCode b.2.2))))
+
+/-- the sorted `(p, ins_p)` pairs of one slot (`insNdim = ins_ndim`, `part = ins_part`) -/
+def mergeSorted (np part : List Nat) (insNdim : Nat) : List (Nat × Nat) :=
+  (stableSort mergeLe (np.zip ((List.range insNdim).zip part))).map fun x => (x.1, x.2.2)
 
 /-- `out_chars` of `tensor_merge` slot by slot, for already normalised positions -/
 def mergeOutSlots (arrNdim insNdim rank : Nat) (np : List Nat) : List (List Nat) :=
@@ -238,7 +246,7 @@ def mergeOutSlots (arrNdim insNdim rank : Nat) (np : List Nat) : List (List Nat)
   (List.range rank).map fun r =>
     let arrPart := slice arrChars (r * arrNdim) ((r + 1) * arrNdim)
     let insPart := slice insChars (r * insNdim) ((r + 1) * insNdim)
-    insertLoop 0 arrPart (stableSort mergeLe (np.zip insPart))
+    insertLoop 0 arrPart (mergeSorted np insPart insNdim)
 
 /-- factor label of a letter of `tensor_merge` -/
 def mergeLetterFactor (chain ins : List Nat) (rank c : Nat) : Nat :=
@@ -246,29 +254,27 @@ def mergeLetterFactor (chain ins : List Nat) (rank c : Nat) : Nat :=
   else chain.getD ((c - ins.length * rank) % chain.length) 0
 
 /-- factor order of every slot of `tensor_merge(tensor(*chain), tensor(*ins), pos)`.
-`ValueError`: more letters needed than `ascii_letters` has (einsum rejects the truncated
-subscripts), or fewer positions than factors of `ins` (`zip` truncates, the letters of the
-remaining factors are missing from the output, einsum sums over them and the final `reshape` fails
-unless all of them are one-dimensional). Surplus positions are normalised and then ignored. -/
+Order of the checks as in the source: `len(pos) != ins_ndim` → `ValueError`; then the positions are
+normalised (`IndexError`, `ZeroDivisionError`); `ValueError` when more letters are needed than
+`ascii_letters` has (einsum rejects the truncated subscripts). -/
 def mergeSlots (chain ins : List Nat) (pos : List Int) (rank : Nat) :
     Except String (List (List Nat)) :=
-  match normAll chain.length pos with
-  | .error e => .error e
-  | .ok np =>
-    if (ins.length + chain.length) * rank > nLetters then .error "ValueError"
-    else if pos.length < ins.length then .error "ValueError"
-    else .ok ((mergeOutSlots chain.length ins.length rank np).map
-      (·.map (mergeLetterFactor chain ins rank)))
+  if pos.length ≠ ins.length then .error "ValueError"
+  else
+    match normAll chain.length pos with
+    | .error e => .error e
+    | .ok np =>
+      if (ins.length + chain.length) * rank > nLetters then .error "ValueError"
+      else .ok ((mergeOutSlots chain.length ins.length rank np).map
+        (·.map (mergeLetterFactor chain ins rank)))
 
-/-- factor order of `tensor_merge`; `SlotMismatch` is *not* a Python exception: the slots are
-ordered differently (the function returns an array that is not the Kronecker chain of any ordering
-of the factors). -/
+/-- factor order of `tensor_merge` (the order of the first slot; all slots are ordered alike,
+`C16.mergeSlots_spec`; `[]` for the degenerate `rank = 0`). -/
 def mergeResult (chain ins : List Nat) (pos : List Int) (rank : Nat := 2) :
     Except String (List Nat) :=
   match mergeSlots chain ins pos rank with
   | .error e => .error e
-  | .ok [] => .ok []
-  | .ok (s :: ss) => if ss.all (· == s) then .ok s else .error "SlotMismatch"
+  | .ok ss => .ok (ss.headD [])
 
 /-! ### `tensor_transpose` -/
 
@@ -280,23 +286,25 @@ def transposeAxes (rank ndim : Nat) (order : List Nat) : List Nat :=
 def validAxes (axes : List Nat) (n : Nat) : Bool :=
   axes.length == n && axes.all (· < n) && decide axes.Nodup
 
-/-- factor order of `tensor_transpose(tensor(*chain), order)`: new position `j` holds the old
-factor `order[j]`. -/
+/-- `sorted(order) == list(range(ndim))` -/
+def orderIsRange (order : List Nat) (ndim : Nat) : Bool :=
+  stableSort (fun a b => decide (a ≤ b)) order == List.range ndim
+
+/-- factor order of `tensor_transpose(tensor(*chain), order)` for non-negative entries: the guard
+`sorted(order) != list(range(ndim))` → `ValueError`, then NumPy's own check of the axes list (which
+then always passes, `C16.transposeResult_spec`); new position `j` holds the old factor `order[j]`.
+-/
 def transposeResult (chain order : List Nat) (rank : Nat := 2) : Except String (List Nat) :=
-  if validAxes (transposeAxes rank chain.length order) (rank * chain.length) then
+  if !orderIsRange order chain.length then .error "ValueError"
+  else if validAxes (transposeAxes rank chain.length order) (rank * chain.length) then
     .ok (order.map fun o => chain.getD o 0)
   else .error "ValueError"
 
-/-- The same with possibly negative entries of `order` (NumPy normalises negative axes by adding
-the number of axes, here without broadcast axes): the normalised axes, if valid. -/
-def transposeAxesInt (rank ndim : Nat) (order : List Int) : Except String (List Nat) :=
-  let n := rank * ndim
-  let raw : List Int := (List.range rank).flatMap fun r => order.map fun o => (r * ndim : Nat) + o
-  let normed : List Int := raw.map fun a => if a < 0 then a + (n : Int) else a
-  if normed.all (fun a => decide (0 ≤ a ∧ a < (n : Int))) then
-    let axes := normed.map Int.toNat
-    if validAxes axes n then .ok axes else .error "ValueError"
-  else .error "ValueError"
+/-- integer entries: a negative entry makes `sorted(order) != list(range(ndim))` -/
+def transposeResultInt (chain : List Nat) (order : List Int) (rank : Nat := 2) :
+    Except String (List Nat) :=
+  if order.any (fun o => decide (o < 0)) then .error "ValueError"
+  else transposeResult chain (order.map Int.toNat) rank
 
 /-! ### Pauli basis index maps (`basis.py`) -/
 
@@ -366,13 +374,7 @@ def handleTensor (toks : List String) : Option String :=
   | "ttranspose" :: c :: order :: rest =>
     let c := c.toNat!
     let rank := match rest with | [r] => r.toNat! | _ => 2
-    let ord := parseInts order
-    if ord.all (fun o => decide (0 ≤ o)) then
-      some (showRes (transposeResult (List.range c) (ord.map Int.toNat) rank))
-    else
-      some (match transposeAxesInt rank c ord with
-        | .ok axes => "ok_axes " ++ showNats axes
-        | .error e => "err " ++ e)
+    some (showRes (transposeResultInt (List.range c) (parseInts order) rank))
   | ["pauli_equiv", N, idx] =>
     some ("ok " ++ showNats (equivalentPauli ((parseInts idx).filterMap
       fun i => if 0 ≤ i then some i.toNat else none) N.toNat!))
